@@ -117,12 +117,13 @@ type VC struct {
 	preRefs   map[string]bool               // terms denoting objects that existed at function entry
 	lits     map[string]bool                // string literals seen (closed terms)
 	litFuncs map[string]func(string) string // uninterpreted string functions evaluable on literals
+	litAxioms map[string]func(string) ([]string, []string) // per-literal axioms of other evaluable functions
 	seenObl  map[string]bool
 }
 
 func newVC(eng *Engine, name string, classes map[string]bool) *VC {
 	vc := &VC{eng: eng, name: name, declared: map[string]bool{}, comps: map[string]*Sort{}, entry: map[string]Term{},
-		classes: classes, oblCount: map[string]int{}, fset: eng.fset, usedExt: map[string]bool{}, usedSpec: map[string]bool{}, inlined: map[string]bool{}, known: map[string]bool{}, seenObl: map[string]bool{}, freshRefs: map[string]bool{}, preRefs: map[string]bool{}, lits: map[string]bool{}, litFuncs: map[string]func(string) string{}}
+		classes: classes, oblCount: map[string]int{}, fset: eng.fset, usedExt: map[string]bool{}, usedSpec: map[string]bool{}, inlined: map[string]bool{}, known: map[string]bool{}, seenObl: map[string]bool{}, freshRefs: map[string]bool{}, preRefs: map[string]bool{}, lits: map[string]bool{}, litFuncs: map[string]func(string) string{}, litAxioms: map[string]func(string) ([]string, []string){}}
 	vc.A0 = vc.fresh("A0", SInt)
 	vc.fact(Ge(vc.A0, One))
 	return vc
@@ -663,32 +664,45 @@ func (vc *VC) mineOrNil(st *State, e Term) Term {
 // occurs in the VC (uf(lit) == value).
 func (vc *VC) prelude() []string {
 	var out []string
-	var names []string
+	var names, an []string
 	for n := range vc.litFuncs {
 		names = append(names, n)
 	}
 	sort.Strings(names)
-	var lits []string
-	for l := range vc.lits {
-		lits = append(lits, l)
+	for n := range vc.litAxioms {
+		an = append(an, n)
 	}
-	sort.Strings(lits)
-	for _, n := range names {
-		fn := vc.litFuncs[n]
-		// values are literals too (ToUpper(ToUpper(x)))
-		seen := map[string]bool{}
-		work := append([]string(nil), lits...)
-		for len(work) > 0 {
-			l := work[0]
-			work = work[1:]
-			if seen[l] {
-				continue
-			}
-			seen[l] = true
-			v := fn(l)
+	sort.Strings(an)
+	var work []string
+	for l := range vc.lits {
+		work = append(work, l)
+	}
+	sort.Strings(work)
+	// values are literals too (ToUpper(ToUpper(x)), Split(Split(x)[1])): close
+	// the literal set under the evaluable functions (bounded: results only shrink
+	// or are idempotent images)
+	seen := map[string]bool{}
+	for len(work) > 0 && len(seen) < 4096 {
+		l := work[0]
+		work = work[1:]
+		if seen[l] {
+			continue
+		}
+		seen[l] = true
+		for _, n := range names {
+			v := vc.litFuncs[n](l)
 			out = append(out, fmt.Sprintf("(assert (= (%s %s) %s))", sym(n), StrT(l).S, StrT(v).S))
 			if !seen[v] {
 				work = append(work, v)
+			}
+		}
+		for _, n := range an {
+			ax, vals := vc.litAxioms[n](l)
+			out = append(out, ax...)
+			for _, v := range vals {
+				if !seen[v] {
+					work = append(work, v)
+				}
 			}
 		}
 	}
